@@ -229,6 +229,31 @@ def run(chk, repo):
         # nothing pulled before the first yield-bearing loop except by peek (size detection is a documented look-ahead)
     chk.floor("R2.3", n23, 6, "block / expanding stages")
 
+    # blocks: the item that completes a block is the last one read for it
+    chk.rule("R2.3.complete", "in blocks every decision-tree leaf of a loop body that yields a block also appends the "
+                              "pulled item in that same leaf: a block is emitted by the arrival of its own last item, "
+                              "never by a later (skipped) one - j blocks read (j-1)*hop+size items, not more")
+    from .c08 import leaves as _leaves
+    bl = repo.find("lazy_misc", "blocks")
+    mmod = repo.mod("lazy_misc")
+    nlv = 0
+    for loop in [n for n in ast.walk(bl) if isinstance(n, ast.For) and unparse(n.iter) == "seq"]:
+        el = unparse(loop.target)
+        for leaf in _leaves(list(loop.body)):
+            ys = [s_ for s_ in leaf.stmts if isinstance(s_, ast.Expr) and isinstance(s_.value, ast.Yield)]
+            if not ys:
+                continue
+            nlv += 1
+            apps = [s_ for s_ in leaf.stmts if isinstance(s_, ast.Expr) and isinstance(s_.value, ast.Call)
+                    and isinstance(s_.value.func, ast.Attribute) and s_.value.func.attr == "append"
+                    and [unparse(a) for a in s_.value.args] == [el]]
+            before = [a for a in apps if leaf.stmts.index(a) < leaf.stmts.index(ys[0])]
+            ctxt = " and ".join(("" if p_ else "not ") + unparse(c) for c, p_ in leaf.conds) or "always"
+            chk.decide(bool(before), "R2.3.complete", "%s:blocks" % mmod.relpath, "yield leaf [%s] appends the pulled item first" % ctxt,
+                       why="a block is emitted on an item that is not part of it: the stage reads past the items the "
+                           "block needs (more than (j-1)*hop+size for j blocks)", node=ys[0])
+    chk.floor("R2.3.complete", nlv, 2, "yielding leaves of blocks")
+
     # generator stages must not touch their source outside generator frames: being generator functions they cannot.
     # ParallelFilter hub
     pc = repo.find("lazy_filters", "ParallelFilter.__call__")
